@@ -37,7 +37,11 @@ SumQ(cs) == IF cs = <<>> THEN Zero ELSE Add(Head(cs).q, SumQ(Tail(cs)))
 SumQRho(cs) == IF cs = <<>> THEN Zero ELSE Add(MulP(Head(cs).q, Head(cs).rho.v, P14), SumQRho(Tail(cs)))
 SumQOverRho(cs) == IF cs = <<>> THEN Zero ELSE Add(Div(Head(cs).q, Head(cs).rho.v, P14), SumQOverRho(Tail(cs)))
 AllDens(cs) == \A i \in DOMAIN cs : Num(cs[i].rho) /\ cs[i].rho.v.s > 0
-MixClause(e) ==
+\* a density tag on a parenthesised group: "@d" / "@di" is the density, "@dn" the density at natural abundance
+\* (density * natural mass = tag * actual mass)
+TagOK(p) == "tag" \notin DOMAIN p
+            \/ (Num(p.rho) /\ Close(MulP(p.rho.v, IF p.tag.k = "n" THEN p.massnat ELSE p.mass, P14), MulP(p.tag.v, p.mass, P14), -11))
+MixClauseT(e, ptol) ==
   LET cs == Live(e.comps)
       mode == e.mode
       ks == AllKeys(cs)
@@ -52,13 +56,14 @@ MixClause(e) ==
      ELSE IF Keys(e.result.atoms) # {k \in ks : want[k].s > 0} THEN "MixtureAtoms"
      ELSE LET ref == CHOOSE k \in Keys(e.result.atoms) : TRUE          \* proportionality to one reference atom suffices
               got == [k \in Keys(e.result.atoms) |-> CountOf(e.result.atoms, k)]
-          IN IF \E a \in Keys(e.result.atoms) : ~Close(MulP(got[a], want[ref], P14), MulP(got[ref], want[a], P14), -10) THEN "Proportions"
+          IN IF \E a \in Keys(e.result.atoms) : ~Close(MulP(got[a], want[ref], P14), MulP(got[ref], want[a], P14), ptol) THEN "Proportions"
      ELSE IF "density_override" \in DOMAIN e THEN (IF Num(e.result.rho) /\ Close(e.result.rho.v, e.density_override, -12) THEN "ok" ELSE "GivenDensityKept")
      ELSE IF ~AllDens(cs) THEN (IF e.result.rho.k = "none" THEN "ok" ELSE "UnknownDensityStaysUnknown")
      ELSE IF ~Num(e.result.rho) THEN "MixtureDensityKnown"
      ELSE IF mode = "weight" /\ ~Close(MulP(e.result.rho.v, SumQOverRho(cs), P14), SumQ(cs), -10) THEN "DensityIsMassOverVolume"
      ELSE IF mode = "volume" /\ ~Close(MulP(e.result.rho.v, SumQ(cs), P14), SumQRho(cs), -10) THEN "DensityIsMassOverVolume"
      ELSE "ok"
+MixClause(e) == MixClauseT(e, -10)
 \* string forms: the quantities a spelled-out mixture denotes
 \*   percent: q as written, the last component gets the remainder to 100
 \*   mass/volume units: grams (volume: litres * 1000 * density)
@@ -83,8 +88,11 @@ StringClause(e) ==
       mode == IF form \in {"vol%", "layer"} THEN "volume" ELSE "weight"
       bad == form \in {"wt%", "vol%"} /\ Gt(given, FromInt(100))
       novol == form = "abs" /\ \E i \in 1..n : parts[i].unit # "group" /\ IsVol(parts[i].unit) /\ ~Num(parts[i].rho)
+      \* the remainder 100 - sum is computed in floating point: below 0.01 % its relative rounding error exceeds 1e-10
+      small == form \in {"wt%", "vol%"} /\ Lt(Sub(FromInt(100), given), Sci(1, -2))
   IN IF bad \/ novol THEN (IF "exc" \in DOMAIN e.result THEN "ok" ELSE "MalformedMixtureRejected")
-     ELSE LET c == MixClause([comps |-> cs, mode |-> mode, result |-> e.result])
+     ELSE IF \E i \in 1..n : ~TagOK(parts[i]) THEN "GroupDensityTag"
+     ELSE LET c == MixClauseT([comps |-> cs, mode |-> mode, result |-> e.result], IF small THEN -5 ELSE -10)
           IN IF c # "ok" THEN c
              ELSE IF form = "abs" /\ (~Num(e.total_mass) \/ ~Close(e.total_mass.v, SumQ(cs), -11)) THEN "TotalMassRecorded"
              ELSE IF form = "layer" /\ (~Num(e.thickness) \/ ~Close(e.thickness.v, SumQ(cs), -11)) THEN "ThicknessRecorded"
